@@ -72,9 +72,13 @@ func dhcpCells(kind string) []cellSpec {
 	return out
 }
 
-func genDHCP(s src, c cellSpec) *tcase {
+func genDHCP(s src, c cellSpec, base *params) *tcase {
 	tc := &tcase{Kind: c.Kind, Path: c.Path, Prefix: c.Prefix, Second: c.Second}
-	genCommon(s, &tc.P)
+	if base != nil {
+		tc.P = *base
+	} else {
+		genCommon(s, &tc.P)
+	}
 	if c.Path == "auth-fail" {
 		tc.P.Radius, tc.P.RadiusAuth = true, true
 	}
